@@ -48,6 +48,18 @@ CLAIMED = {
 }
 
 NOT_APPLICABLE = {
+ 'C02': 'accept/reject of whole programs has no symbolic value to range over (symbolic program text cannot pass the keyword hash map / float parsing); the planned kernel (ConstraintSet::solve on symbolic rational exponents) runs into the gcd path explosion of Ratio<i128> arithmetic measured on the C08 exponent kernels, so it was not built',
+ 'C06': 'ranges over histories of source texts; no symbolic value reaches the rollback mechanism and symbolic source text is out of reach (hash-map keyword lookup, float parsing)',
+ 'C07': 'ranges over sequences of texts and split points; nothing value-dependent for a solver to decide',
+ 'C13': 'finite alias x prefix table: exhaustive enumeration is the tool; a solver would need symbolic identifiers through IndexMap hashing or a hand model of PrefixParser::parse instead of the code',
+ 'C14': 'number formatting: the float branch (pretty_dtoa / ryu, table-driven 128-bit arithmetic on symbolic bits) is not executable symbolically; the integer branch needs digit extraction by division on symbolic 64-bit values, not built',
+ 'C15': 'ranges over statements (program structure); only the string-escaping round trip has a symbolic value, and that kernel was not built in the time available',
+ 'C16': 'ranges over function bodies (program structure); the inference / printing mechanism does not branch on any value that can be made symbolic',
+ 'C17': 'finite set of module orders with no symbolic value; exhaustive enumeration is the tool',
+ 'C19': 'date-time arithmetic lives in jiff (calendar and time-zone tables) behind VM opcodes that need a DateTime on the stack; no kernel was built, so nothing is claimed',
+ 'C22': 'process-level I/O and exit status of the CLI binary; behind I/O and whole-program execution',
+ 'C23': 'the inverse pairs are libm functions (symbolic arguments not executable), jiff date arithmetic, or tolerance claims over floating-point products; the add/sub-only temperature kernel was not built',
+ 'C24': 'finite list of concrete snippets; executing them is a test, not a solver query',
 }
 
 def main():
